@@ -620,7 +620,8 @@ calc_grep_atom(const char *fmt)
 			break;
 
 		case DT_SPFL_N_EPOCH:
-			res.pl.off_min += -11;
+			/* a sign and 11 digits */
+			res.pl.off_min += -12;
 			res.pl.off_max += -1;
 			res.pl.flags |= GRPATM_DIGITS;
 			break;
